@@ -18,6 +18,11 @@ CLAIMED = {
  "C06": ("proof", "Lean 4 proof (inductive invariants) + trace refinement check",
          "Nothing reachable from a failed node is ever begun; first_node_error is exactly the first recorded failure and is set iff a call failed "
          "(C06_contain, C06_error, C06_error_real, C06_raises_iff, C06_failed_not_ok).", "4/C06"),
+ "C07": ("proof", "Lean 4 proof (termination measure, deadlock-freedom, Kahn soundness) + trace refinement check + differential test of Kahn model",
+         "Every step of the engine model strictly decreases an explicit measure; no reachable non-final state is stuck; a returned run has exactly "
+         "worker_count threads, all exited, nothing running, nothing enabled afterwards; a cycle makes the Kahn model raise and a completed sort is a "
+         "topological order of all nodes (C07_terminates, C07_no_deadlock, C07_can_finish, C07_quiescent, C07_nothing_later, C07_cycle_rejected, "
+         "C07_kahn_sound, C07_acyclic_first, C07_skeleton). The cooperative scheduler's deadlock detector runs on every controlled schedule.", "4/C07"),
  "C10": ("proof", "Lean 4 proof (error-bound invariant over generated stop condition) + trace refinement check",
          "running <= workers, pool size <= workers, failures <= k + workers for max_errors = k, no early stop, idle workers can always take ready "
          "items (C10_workers, C10_pool, C10_errors_bound, C10_no_early_stop, C10_none, C10_parallel, C10_parallel_begin).", "4/C10"),
